@@ -118,12 +118,12 @@ def wrap(seq: bytes, line_length: int) -> bytes:
     return b"".join(seq[i : i + line_length] + b"\n" for i in range(0, len(seq), line_length))
 
 
-def expected_scaffold_seq(seqs, rows) -> bytes:
+def expected_scaffold_seq(seqs, rows, gapchar=b"N") -> bytes:
     """rows: ("F", name, start, end, strand) | ("G", len, type)"""
     out = []
     for r in rows:
         if r[0] == "G":
-            out.append(b"N" * r[1])
+            out.append(gapchar * r[1])
         else:
             _, name, s, e, strand = r
             piece = seqs[name][s - 1 : e]
@@ -131,11 +131,11 @@ def expected_scaffold_seq(seqs, rows) -> bytes:
     return b"".join(out)
 
 
-def expected_stream(seqs, scaffolds, line_length) -> bytes:
+def expected_stream(seqs, scaffolds, line_length, gapchar=b"N") -> bytes:
     """scaffolds: list of (name, rows)"""
     out = []
     for name, rows in scaffolds:
-        out.append(b">" + name.encode() + b"\n" + wrap(expected_scaffold_seq(seqs, rows), line_length))
+        out.append(b">" + name.encode() + b"\n" + wrap(expected_scaffold_seq(seqs, rows, gapchar), line_length))
     return b"".join(out)
 
 
